@@ -93,7 +93,10 @@ def read(rel):
 # the tree with the proposed C16 patches)
 KNOWN = {
     "get_aux_value": {"b2bb0a89f85befd0"},
-    "remove_key": {"6176074e66f3f2aa"},          # the upstream shape does not compile when instantiated (D8)
+    "remove_key": {"6176074e66f3f2aa",           # the upstream shape does not compile when instantiated (D8)
+                   # + proposed repo patch C20_10 (the replacement pointer table is allocated before anything is released; no
+                   # parking array): same search, same entry removed, same order of the survivors — only the allocation order differs
+                   "ee48aeb16f482a3e"},
     "remove_key_upstream": {"90acd5b455ad4cf8"},
     "read_key_T": {"556dd1837c8040df"},
     "read_key_str": {"ccf62af5ab74fe48"},
